@@ -14,8 +14,9 @@ import (
 //  2. F = fmt(x); fmt(F) must equal F byte for byte.
 //  3. On failure the formatter is iterated (up to 6 passes over its own
 //     output) to describe the failure: "converges" (a later pass is a fixed
-//     point), "grows" (every pass is longer than the one before), "unstable"
-//     (neither), or "error" (the formatter's output cannot be formatted again).
+//     point), "grows" (all 6 passes succeed, each longer than the one before),
+//     "unstable" (neither, or a later pass fails), or "error" (the formatter's
+//     first output cannot be formatted again).
 func Check(src string) tsrc.Outcome {
 	if _, err := tsrc.Gen(src); err != nil {
 		return tsrc.Outcome{}
@@ -34,13 +35,14 @@ func Check(src string) tsrc.Outcome {
 	if F2 == F {
 		return o
 	}
-	prev, cur := F, F2
-	grows := len(cur) > len(prev)
+	cur := F2
+	grows := len(F2) > len(F)
 	pass := 2 // cur is the output of pass 2
-	conv := 0
+	conv, broke := 0, false
 	for pass < 6 {
 		next, err := tsrc.Fmt(cur)
 		if err != nil {
+			broke = true
 			break
 		}
 		pass++
@@ -51,13 +53,15 @@ func Check(src string) tsrc.Outcome {
 		if len(next) <= len(cur) {
 			grows = false
 		}
-		prev, cur = cur, next
+		cur = next
 	}
-	_ = prev
 	switch {
 	case conv > 0:
 		o.Class = "converges"
 		o.Detail = fmt.Sprintf("not idempotent, converges at pass %d", conv)
+	case broke:
+		o.Class = "unstable"
+		o.Detail = fmt.Sprintf("not idempotent, the output of pass %d cannot be formatted any more", pass)
 	case grows:
 		o.Class = "grows"
 		o.Detail = fmt.Sprintf("not idempotent, grows on every one of %d passes", pass)
